@@ -13,8 +13,10 @@
     `ScalarBaseMult`, `rsa.PrivateKey.Precompute`, `pem`) is a PARAMETER: `structure Crypto` bundles the
     functions with their assumed inverse laws as fields.  Nothing is an axiom.  The functions are total
     (value or error) except `marshalPKCS8`, which may also panic: the real `x509.MarshalPKCS8PrivateKey`
-    does (`big.Int.FillBytes`) on an ecdsa key whose scalar does not fit the curve size, and the
-    accessors can hand it such a key.
+    does (`big.Int.FillBytes`) on an ecdsa key whose scalar does not fit the curve size.  Since /repo
+    e2e4a08 `PrivateKey.ECDSA` checks the scalar against the order of the curve, so the accessors no
+    longer hand it such a key (the `…NoRange` variants are the code before that commit; `registerRsaPrivOld`
+    is the builder before d693174).
   * Transport here is VALUE-LEVEL only: each big integer / byte string of the material is written and
     read back in the chosen encoding.  The structure-level transport (order and tagging of the fields,
     enumerations, the message framing) is the business of C01/C04 and is the identity on the
